@@ -21,7 +21,7 @@ TECHNIQUE = ('breadth-first enumeration of all estimate-call histories up to the
 RULE = ('case = (estimator configuration, history of calls); alphabet: 6 (measurement list, total, solver, callback?) letters over (A,B,C); '
         'configurations: structural zeros off/on, and warm_start=True (immutability / input / total clauses only); all histories of length <= 3 (quick) / 4 (thorough); states = histories (engine state '
         'digests counted separately), transitions = estimate calls; non-trivial = history length >= 2; distinct = digest of the history. '
-        'Warm start: every ordered pair of distinct measurement lists x 3 solvers.')
+        'Warm start: every ordered pair of distinct measurement lists x 3 solvers. elim-hist: estimators given a caller-owned elimination order on (A,B,C,D), all histories of length 2..3 (quick) / 2..4 (thorough) over 5 measurement lists incl. the empty one and two 4-cycles.')
 LEVEL_TEXT = ('All call sequences up to the depth bound are executed on a single long-lived estimator; after the last call the returned model '
               'must answer exactly like the model of a fresh estimator given that call alone, all models returned earlier must still give the '
               'answers recorded when they were returned, and the caller-owned inputs must be unchanged. This is explicit-state exploration of the '
